@@ -762,6 +762,9 @@ class MembersType(StandardEncodeMixin, StandardDecodeMixin, Type):
 
         values = {}
 
+        if self.any_order and self.additions is not None:
+            return self.decode_content_any_order(data, values, offset, end_offset)
+
         offset, out_of_data = self.decode_members(self.root_members, data, values, offset, end_offset)
 
         # Decode additions (even if out of data already, so defaults can be added)
@@ -778,6 +781,51 @@ class MembersType(StandardEncodeMixin, StandardDecodeMixin, Type):
         else:
             # Extra data is allowed in cases of versioned additions
             return values, end_offset
+
+    def decode_content_any_order(self, data, values, offset, end_offset):
+        """Decode the members of an extensible SET. Root members and
+        extension additions may come in any order (a DER encoder
+        sorts all of them by tag), and members added in later
+        versions are skipped.
+
+        """
+
+        additions = flatten(self.additions)
+        remaining_members = self.root_members + additions
+
+        while True:
+            out_of_data, offset = is_end_of_data(data, offset, end_offset)
+
+            if out_of_data:
+                break
+
+            for member in remaining_members:
+                try:
+                    value, member_offset = member.decode(data, offset, values=values)
+                except ErrorWithLocation as e:
+                    # Add member location
+                    e.add_location(member)
+                    raise e
+
+                if value != TAG_MISMATCH:
+                    values[member.name] = value
+                    remaining_members.remove(member)
+                    offset = member_offset
+                    break
+            else:
+                # Unknown extension addition.
+                offset = skip_tag_length_contents(data, offset)
+
+        for member in remaining_members:
+            if member.optional:
+                continue
+
+            if member.has_default():
+                values[member.name] = member.get_default()
+            elif member not in additions:
+                raise MissingMandatoryFieldError(member, offset)
+
+        return values, offset
 
     def decode_members(self, members, data, values, offset, end_offset, ignore_missing=False):
         """
